@@ -960,6 +960,14 @@ def c14_packets(r, toks, per_shape):
     for amt in (2 ** 64, 2 ** 128, 2 ** 200):
         lines.append(orb_pkt("recv", amt, int_fwd(U[1]), [fee_action([(U[0], "b", 9999)])], denom="uother"))
         lines.append(orb_pkt("recv", amt, hyp_fwd(tok_o, domain=1), [fee_action([(U[0], "b", 1)])], denom="uother"))
+    # …and into CCTP: amounts beyond 64 and 128 bits with escrow and burn limit to match, every caller and recipient shape with them
+    lines.append("escrowfund %s %s %d" % (hx("channel-0"), hx("uusdc"), 2 ** 250))
+    lines.append("env burnlimit %d" % (2 ** 255))
+    for amt in (2 ** 63, 2 ** 64, 2 ** 64 + 1, 2 ** 128, 2 ** 200, 2 ** 249):
+        for fwd in (cctp_fwd(domain=0), cctp_fwd(domain=5, caller=b"\x05" * 32), cctp_fwd(domain=0, mint=b"\x01" * 20), cctp_fwd(domain=4294967295), cctp_fwd(domain=0, caller=b"\x05" * 33)):
+            lines.append(orb_pkt("recv", amt, fwd, [fee_action([(U[0], "b", 1)])]))
+            lines.append(orb_pkt("recv", amt, fwd, None))
+    lines.append("env burnlimit 1000000000000000000000000")
     # fee extremes end to end
     lines.append(orb_pkt("recv", 2 ** 256 - 1, int_fwd(U[1]), [fee_action([(U[0], "a", 2 ** 255), (U[2], "a", 2 ** 255)])], denom="uother"))
     lines.append(orb_pkt("recv", 10 ** 30, int_fwd(U[1]), [fee_action([(U[0], "b", 10000), (U[2], "b", 10000)])], denom="uother"))
